@@ -19,11 +19,12 @@ import (
 func init() {
 	register(&propDef{
 		id:      "C28",
-		explain: "Structural necessary condition of 'Args behaves as an insertion-ordered multimap': every function that moves elements inside a []argsKV (element stores fed by element loads, or copy() within one slice) is order-preserving by construction - copy shifts left by a constant, and no element is loaded from an index derived from the slice length (the tail) and stored at an index that is not; an entry moved to another slot has its old slot rewritten as well (swap, park or shift), so no two slots share key/value buffers - and every shortening of Args.args is [:0], the result of such a routine, or happens inside one; (coupling) every function of the Args machinery that assigns an entry's value also assigns its no-value flag on every path. (R-slot) a recycled entry handed out by allocArg (reslicing into spare capacity, so it still holds the previous occupant's key, value and flag) has key, value and no-value flag stored before it is kept - directly, or by argsScanner.next, whose every producing return stores all three (decided path-sensitively); Not decided: agreement of Peek/Set/Add with a reference model over operation sequences, parsing and encoding.",
+		explain: "Structural necessary condition of 'Args behaves as an insertion-ordered multimap': every function that moves elements inside a []argsKV (element stores fed by element loads, or copy() within one slice) is order-preserving by construction - copy shifts left by a constant, and no element is loaded from an index derived from the slice length (the tail) and stored at an index that is not; an entry moved to another slot has its old slot rewritten as well (swap, park or shift), so no two slots share key/value buffers - and every shortening of Args.args is [:0], the result of such a routine, or happens inside one; (coupling) every function of the Args machinery that assigns an entry's value also assigns its no-value flag on every path. (R-slot) a recycled entry handed out by allocArg (reslicing into spare capacity, so it still holds the previous occupant's key, value and flag) has key, value and no-value flag stored before it is kept - directly, or by argsScanner.next, whose every producing return stores all three (decided path-sensitively); (R-has) no boolean routine reached from Args.Has / HasBytes returns a value that depends on a byte slice compared with nil - presence is decided by the key comparison (an empty value in a never-used capacity slot is a nil slice); Not decided: agreement of Peek/Set/Add with a reference model over operation sequences, parsing and encoding.",
 		run: func(p *Prog, r *Report) {
 			runKVOrder(p, r, "C28")
 			runKVCoupling(p, r)
 			runSlotFill(p, r, "C28")
+			runPresenceByKey(p, r)
 		},
 	})
 	register(&propDef{
@@ -977,4 +978,54 @@ func runSpecialSingleValued(p *Prog, r *Report) {
 		}
 	}
 	r.Floor("R-single", "special names that also live in the generic list", n, 2)
+}
+
+// runPresenceByKey (C28.R-has): Has reports whether a key is present. An entry with an empty or absent value can
+// hold a nil value slice (a never-used capacity slot of the backing array), so presence must be decided by the
+// key comparison itself: in every boolean routine that Args.Has / HasBytes reach with the entry list, no returned
+// value depends on comparing a byte slice with nil.
+func runPresenceByKey(p *Prog, r *Report) {
+	roots := []*ssa.Function{p.Func("(*Args).Has"), p.Func("(*Args).HasBytes")}
+	n := 0
+	seen := map[*ssa.Function]bool{}
+	var visit func(fn *ssa.Function, depth int)
+	visit = func(fn *ssa.Function, depth int) {
+		if fn == nil || fn.Blocks == nil || seen[fn] || depth < 0 {
+			return
+		}
+		seen[fn] = true
+		if isBool1(fn) {
+			n++
+			var nilCmp []string
+			for _, b := range fn.Blocks {
+				rt, ok := b.Instrs[len(b.Instrs)-1].(*ssa.Return)
+				if !ok {
+					continue
+				}
+				cmps := map[*ssa.BinOp]bool{}
+				flagComparisons(rt.Results[0], cmps, map[ssa.Value]bool{}, 8)
+				for cmp := range cmps {
+					for _, pair := range [][2]ssa.Value{{cmp.X, cmp.Y}, {cmp.Y, cmp.X}} {
+						if isNilConst(pair[1]) {
+							if _, isSlice := pair[0].Type().Underlying().(*types.Slice); isSlice {
+								nilCmp = append(nilCmp, p.Pos(cmp.Pos()))
+							}
+						}
+					}
+				}
+			}
+			sort.Strings(nilCmp)
+			r.Check("R-has", funcName(fn)+": presence of a key is not decided by a value slice being nil", len(nilCmp) == 0, p.Pos(fn.Pos()),
+				"the result depends on a byte slice compared with nil at "+strings.Join(nilCmp, ", ")+": an entry whose empty value sits in a never-used capacity slot has a nil value, so Has reports a present key as absent while Len, All and the query string still show it")
+		}
+		allCalls(fn, func(b *ssa.BasicBlock, c ssa.CallInstruction) {
+			if f := c.Common().StaticCallee(); f != nil && inModule(f) {
+				visit(f, depth-1)
+			}
+		})
+	}
+	for _, f := range roots {
+		visit(f, 3)
+	}
+	r.Floor("R-has", "boolean presence routines reached from Args.Has", n, 2)
 }
